@@ -38,10 +38,11 @@ UNIT_DEFAULT_PROPS["U20"] = ["C04"]
 UNIT_DEFAULT_PROPS["U21"] = ["C06"]
 UNIT_DEFAULT_PROPS["U22"] = ["C04"]
 UNIT_DEFAULT_PROPS["U23"] = ["C02"]
+UNIT_DEFAULT_PROPS["U24"] = ["C04"]
 
 RUNTIME = ["U6", "U6b", "U7", "U8"] + U9
 # every unit of the run-time side: setup, queuer, stream poll, item closures, prologues, options builder
-RUNTIME_ALL = ["U6", "U6b", "U7", "U8"] + U9 + U16 + ["U17", "U23"]
+RUNTIME_ALL = ["U6", "U6b", "U7", "U8"] + U9 + U16 + ["U17", "U23", "U24"]
 
 # property -> units run (all feature sets of the unit), units whose panic-freedom counts for it.
 # The unit lists are deliberately broad (everything the property's argument passes through): a failing obligation of
@@ -55,7 +56,7 @@ PROPS = {
     "C15": {"units": RUNTIME_ALL + ["U10", "U10b", "U18", "U19"]},
     "C04": {"units": ["U3", "U4", "U15", "U20", "U22", "U10b", "U18"] + RUNTIME_ALL, "safety_units": ["U6", "U6b", "U7", "U20", "U22", "U10b", "U18"] + U9 + U16},
     "C05": {"units": ["U3", "U4", "U6", "U6b", "U8", "U22"], "safety_units": ["U6", "U8"]},
-    "C06": {"units": ["U2", "U3", "U4", "U6", "U7", "U8", "U15", "U21"]},
+    "C06": {"units": ["U2", "U3", "U4", "U6", "U6b", "U7", "U8", "U15", "U21", "U24"]},
     "C07": {"units": ["U10b", "U18"] + RUNTIME_ALL},
     "C08": {"units": ["U10", "U10b"] + RUNTIME_ALL, "safety_units": ["U17"]},
     "C09": {"units": ["U10", "U10b", "U18", "U19"] + RUNTIME_ALL, "safety_units": ["U10", "U10b", "U18", "U19"]},
